@@ -34,7 +34,7 @@ func c17Commit(ph *ProposalHandler, n int) ([]c17Vote, abci.ExtendedCommitInfo) 
 	votes := make([]c17Vote, n)
 	var infos []abci.ExtendedVoteInfo
 	for i := 0; i < n; i++ {
-		v := c17Vote{flag: c17Flags[ndPick(nm("flag", i), len(c17Flags))], cons: ndAddr(nm("cons", i)), op: ndString(nm("operator", i)),
+		v := c17Vote{flag: c17Flags[ndPick(nm("flag", i), 3+ndTier())], cons: ndAddr(nm("cons", i)), op: ndString(nm("operator", i)),
 			hasInit: ndBool(nm("hasInit", i)), hasVal: ndBool(nm("hasValsetSig", i)), hasAtt: ndBool(nm("hasAttestation", i)), ts: ndUint64(nm("ts", i))}
 		for j := 0; j < i; j++ {
 			ndAssume(string(v.cons) != string(votes[j].cons) && v.op != votes[j].op)
@@ -55,6 +55,19 @@ func c17Commit(ph *ProposalHandler, n int) ([]c17Vote, abci.ExtendedCommitInfo) 
 		bz, err := json.Marshal(ext)
 		if err != nil {
 			panic(err)
+		}
+		// a peer may also send an object that leaves out the keys it has nothing for (still valid JSON, still
+		// passes verification): absent means empty
+		if (i == n-1 || ndTier() >= 1) && ndBool(nm("sparse", i)) {
+			if !v.hasAtt {
+				bz = ndJSONDrop(bz, "OracleAttestations")
+			}
+			if !v.hasInit {
+				bz = ndJSONDrop(bz, "InitialSignature")
+			}
+			if !v.hasVal {
+				bz = ndJSONDrop(bz, "ValsetSignature")
+			}
 		}
 		ph.stakingKeeper.(c17Staking).ops[string(v.cons)] = v.op
 		infos = append(infos, abci.ExtendedVoteInfo{Validator: abci.Validator{Address: v.cons, Power: 10}, VoteExtension: bz, BlockIdFlag: v.flag})
